@@ -315,7 +315,9 @@ def resolve_clears(F):
         if not okf:
             r.violate("%s | %s extra guard" % (rs["path"], res), F.loc(rs, P),
                       "%s is called only if an additional condition (line %s) holds, while its list is cleared regardless: a pending %s body can be discarded without being lowered" % (res, foreign["sp"][0], own))
-        if verdict and verdict[0] == "on-result":
+        if verdict and verdict[0] == "on-result" and (F.by_path.get(P["callee"]) or [{}])[0].get("ret") not in (None, "bool"):
+            r.undecided("%s: the clear depends on a result that is not a plain flag" % res)
+        elif verdict and verdict[0] == "on-result":
             tgt = F.by_path.get(P["callee"])
             why = _returns_true_from_every_working_arm(tgt[0]) if tgt else "planner body not found"
             ok = why is None
@@ -323,8 +325,19 @@ def resolve_clears(F):
             if not ok:
                 r.violate("%s | %s partial-result" % (rs["path"], res), F.loc(rs, P),
                           "the %s list is cleared only when %s returns true, but %s: a body that was lowered (or flag-instrumented) without being reported stays in the list and is lowered again by the next encode" % (mode, res, why))
+    non_bool = set()
+    for res in pair:
+        t_ = [f for f in getattr(F, "all_fns", F.fns) if f["kind"] in ("Fn", "AssocFn") and f["name"] == res]
+        if len(t_) == 1 and res == "plan_resolution_block_alt" and (t_[0].get("ret") or "") != "bool":
+            non_bool.add(res)
     for res, mode in pair.items():
         sites = found.get(res, [])
+        if res in non_bool and not (bool(sites) and all(mode in cl for cl in sites)):
+            # the planner reports what it did through a richer value than a flag: how the call sites turn that value into
+            # the clear is not understood
+            r.undecided("%s returns `%s`, not a flag: the pairing of its result with the clearing of the %s list was not analysed" % (
+                res, [f for f in getattr(F, "all_fns", F.fns) if f["name"] == res][0].get("ret"), mode))
+            continue
         ok = bool(sites) and all(mode in cl for cl in sites)
         r.ob(ok, {"resolver": res, "sites": len(sites), "cleared_with": sorted({m for cl in sites for m in cl})})
         if not ok:
